@@ -2,6 +2,7 @@
 from run_check import Case
 from vlib import line, untok
 from props.c01 import VALID, dgram, hdr_tok
+from props import hostsgen
 
 TRUSTED_BASE = [
     "Coq 8.16.1 kernel (coqc; coqchk in the thorough tier)",
@@ -9,6 +10,8 @@ TRUSTED_BASE = [
     "hand-written model coq/Model/TunnelGate.v (shared with C01): dispatch on method/authority, outcome of the outbound attempt -> status, challenge, X-Warning code, host-name header",
     "translator tools/gen_tables.py -> Generated/GateFacts.v (reserved authority constants and dispatch arms, status/challenge constants, the X-Warning table arm by arm, CONNECT needs a port, default port 80 otherwise) and ConnectFacts.v (policy refusals come before any connect: C03)",
     "extraction + driver.ml, cross-checked against vm_compute; harness door verif::session with destinations of chosen outcome on loopback: accepting canary, closed port (refused), listener with a full accept queue (establishment timeout 400 ms), unresolvable name, private / loopback literals with private connections disallowed",
+    "host names with several addresses: the session is run by a child process of the harness in a private user + mount namespace whose /etc/hosts is written for the case (unshare -rm, glibc's files resolver; skipped where that is not possible); the resolver's answers as that process sees them are part of the output and the oracle is computed from them",
+    "a SOCKS5 upstream that falls silent: a scripted server on loopback that stops answering at a chosen step (c15_silent_front)",
 ]
 ASSUMPTIONS = [
     "ENETUNREACH / EHOSTUNREACH (X-Warning 301) and descriptor exhaustion cannot be provoked in this sandbox: the 301 arm is covered by the model, the regenerated table fact and io_to_connection_error's shape only",
@@ -16,7 +19,9 @@ ASSUMPTIONS = [
 ]
 RULE = ("requests: CONNECT / GET / POST / PUT x authorities {canary ip:port, name:port, closed port, full-backlog listener, unresolvable name, private literal, loopback literal, IPv6 literals without a port, "
         "name without port, _check, _udp2, _icmp (with and without an ICMP forwarder set up), _CHECK, _check:0, _udp2x, x_udp2, absolute URIs on reserved names} x private connections allowed/disallowed x "
-        "HTTP/1.1 / HTTP/2 x credentials valid / absent; non-trivial = every case; distinct = distinct session")
+        "HTTP/1.1 / HTTP/2 x credentials valid / absent; host names resolving to one, two or three loopback addresses (IPv4 and IPv6), to loopback and private "
+        "addresses in both orders, to private addresses only (door, TLS listener, QUIC listener); CONNECT ip:port / _udp2 through a SOCKS5 forwarder whose server stops "
+        "answering at the greeting / the authentication / the request (HTTP/1.1, HTTP/2); non-trivial = every case; distinct = distinct session")
 
 # (name, method kind, target, payload, outcome class for the model)
 def targets(private_allowed):
@@ -94,6 +99,36 @@ def gen_cases(rng, ctx):
         cases.append(Case(line("c01_session", [cfg + [front, 1]] + toks), line("c01_session", [cfg] + toks),
                           kind="icmp-set-up" + ("" if front == 0 else "-listener" if front == 1 else "-quic"), nontrivial=True,
                           meta={"cfg": cfg, "front": front, "reqs": [(t[0], t[1], t[4], h is not None) for t, h in reqs]}))
+    # host names with several addresses (private destinations refused): which of the two policy refusals, and the host name with it
+    names = [n for n, _ in hostsgen.NAMES]
+    hosts = list(hostsgen.hosts_file())
+    for front, http2 in ((0, 0), (0, 1), (1, 0), (1, 1), (3, 1)):
+        order = list(names)
+        rng.shuffle(order)
+        for private, chunk in ((0, order[:5]), (0, order[5:]), (1, ["twoloop.verif.test", "oneloop.verif.test"])):
+            reqs = []
+            for n in chunk:
+                codes = hostsgen.refusal_codes([hostsgen.ipaddress.ip_address(a) for a in hostsgen.ADDRS[n]])
+                # (the model is told what the code makes of an answer with both kinds: non-routable)
+                oc = 0 if private else 4 if codes == {311} else 3
+                reqs.append(((n, 1, (n + (":@P" if private else ":80")).encode(), b"x" if private else b"", oc), None))
+            cfg = [0, 1 if front == 3 else http2, 0, private]
+            toks = []
+            for (tname, k, target, payload, oc), h in reqs:
+                toks += [[k, oc], list(target), hdr_tok(h), list(payload)]
+            cases.append(Case(line("c10_hosts", [hosts, [len(chunk)]] + [list(n.encode()) for n in chunk] + [cfg + [front]] + toks),
+                              line("c01_session", [cfg] + toks),
+                              kind="resolved-names:private%d-%s" % (private, "h3" if front == 3 else "h%d%s" % (2 if http2 else 1, "-listener" if front else "")), nontrivial=True,
+                              meta={"cfg": cfg, "front": front, "hosts": chunk, "reqs": [(t[0], t[1], t[4], h is not None) for t, h in reqs]}))
+    # a SOCKS5 forwarder whose server falls silent (valid credentials): one 502 / 302 when the establishment timeout expires
+    for http2 in (0, 1):
+        for mode, udp in ((0, 1), (1, 1), (2, 1), (3, 1), (0, 0), (2, 0)):
+            est = 400 if (mode + http2) % 2 == 0 else 300
+            target = b"_udp2" if udp else b"203.0.113.9:443"
+            cases.append(Case(line("c15_silent_front", [[mode, udp, http2, est]]),
+                              line("c01_session", [[1, http2, 0, 1], [1, 0 if mode == 3 else 5], list(target), hdr_tok(VALID[0]), []]),
+                              kind="silent-socks:%s-h%d" % ("udp" if udp else "tcp", 2 if http2 else 1), nontrivial=True,
+                              meta={"silent": True, "mode": mode, "udp": udp, "http2": http2, "est": est}))
     for i in range(120 if thorough else 30):
         private = rng.below(2)
         ts = targets(private)
@@ -106,7 +141,110 @@ def gen_cases(rng, ctx):
     return cases
 
 
+SILENT_AT = ["never answers the greeting", "answers the method selection and then nothing", "answers the authentication and never the request", "answers everything (control)"]
+
+
+def judge_silent(case, impl, model, ctx, released=False):
+    """a SOCKS5 upstream that falls silent (engine c15_silent_front). Direct oracle from the property text: exactly one final response;
+    an outbound attempt that does not complete within the establishment timeout is reported as 502 / X-Warning 302 (and, for C14,
+    abandoned: its connection to the SOCKS5 server is closed)"""
+    m = case.meta
+    if impl == "999":
+        return [("violation", "the SOCKS5 scenario panicked")]
+    if impl == "996":
+        ctx.setdefault("skipped_env", []).append(case.kind)
+        return []
+    status, warn, ms, heads, accepted, closed = untok(impl.split()[0])
+    est = m["est"]
+    what = "%s CONNECT %s with valid credentials, forward_protocol = socks5, the SOCKS5 server accepts the connection and %s, establishment timeout %d ms" % (
+        "HTTP/2" if m["http2"] else "HTTP/1.1", "_udp2" if m["udp"] else "203.0.113.9:443", SILENT_AT[m["mode"]], est)
+    if m["mode"] == 3:
+        if status != 200 or heads != 1:
+            return [("disagree", "%s: answered %d (%d response heads), expected 200" % (what, status, heads))]
+        return []
+    if accepted == 0:
+        return [("disagree", "%s: the endpoint never connected to the SOCKS5 server" % what)]
+    if status == 0 or heads == 0:
+        return [("violation", "%s: no response at all within %d ms (the request is never answered)" % (what, est + 5000))]
+    if heads != 1:
+        return [("violation", "%s: %d final responses" % (what, heads))]
+    if status != 502 or warn != 302:
+        return [("violation", "%s: answered %d with X-Warning %d after %d ms, not 502 / 302" % (what, status, warn, ms))]
+    if ms * 10 < est * 7:
+        return [("violation", "%s: reported as timed out after %d ms, before 0.7 x the establishment timeout" % (what, ms))]
+    if ms > 3 * est + 1500:
+        return [("violation", "%s: answered only after %d ms: the attempt outlived its establishment timeout" % (what, ms))]
+    if released and closed < accepted:
+        return [("violation", "%s: %d of the %d connections to the SOCKS5 server were still open 1.5 s after the 502: the attempt was reported but not abandoned" % (
+            what, accepted - closed, accepted))]
+    if model:
+        ma = untok(model.split()[0])
+        if [status, warn] != [ma[0], ma[2]]:
+            return [("disagree", "%s: answered %d / %d, the gate model %d / %d" % (what, status, warn, ma[0], ma[2]))]
+    return []
+
+
+def judge_hosts(case, impl, model, spec, ctx):
+    """sessions against host names with addresses of the case's choosing (engine c10_hosts). Direct oracle from the property text, computed
+    from the answers the resolver really gave: a policy refusal is 502 with X-Warning 311 when the name's addresses are all loopback ones,
+    310 when none is, with the host name header and without traffic; no policy refusal when private destinations are allowed"""
+    if impl == "999":
+        return [("violation", "the session harness panicked")]
+    if impl == "996":
+        ctx.setdefault("skipped_env", []).append(case.kind)
+        return []
+    toks = impl.split()
+    names = case.meta["hosts"]
+    got = [hostsgen.parse_answer(untok(t)) for t in toks[:len(names)]]
+    for n, g in zip(names, got):
+        if sorted(map(str, g)) != sorted(str(hostsgen.ipaddress.ip_address(a)) for a in hostsgen.ADDRS[n]):
+            # the resolver of this machine does not answer from the hosts file as written: nothing can be said
+            ctx.setdefault("skipped_env", []).append(case.kind + " (resolver answered %s for %s)" % ([str(x) for x in g], n))
+            return []
+    cfg = case.meta["cfg"]
+    if cfg[3] and any(str(g[0]) != "127.0.0.1" for g in got):
+        # private destinations allowed: the canary listens on 127.0.0.1 only, and the first address is the one connected to
+        ctx.setdefault("skipped_env", []).append(case.kind + " (the resolver does not put 127.0.0.1 first)")
+        return []
+    front = case.meta.get("front", 0)
+    proto = "HTTP/3 over the real QUIC listener" if front == 3 else ("HTTP/2" if cfg[1] else "HTTP/1.1") + (" over the real TLS listener" if front == 1 else "")
+    rest = toks[len(names):]
+    for k, (n, g, t) in enumerate(zip(names, got, rest)):
+        a = untok(t)
+        if a == [996]:
+            continue
+        status, challenge, warn, tcp, udp, names_host, responses = a
+        what = "%s request %d: CONNECT %s, a name that resolves to %s, private connections %s" % (
+            proto, k, n, ", ".join(str(x) for x in g), "allowed" if cfg[3] else "refused")
+        if responses != 1:
+            return [("violation", "%s: %d final responses" % (what, responses))]
+        if cfg[3]:
+            if status == 502 and warn in (310, 311):
+                return [("violation", "%s: refused by the policy (X-Warning %d)" % (what, warn))]
+            if status != 200 or tcp != 1:
+                return [("violation", "%s: answered %d, %d connections reached the canary on 127.0.0.1" % (what, status, tcp))]
+            continue
+        allowed = hostsgen.refusal_codes(g)
+        if status != 502 or warn not in (310, 311):
+            return [("violation", "%s: answered %d with X-Warning %d, not a policy refusal" % (what, status, warn))]
+        if warn not in allowed:
+            return [("violation", "%s: refused with X-Warning %d (%s) although %s" % (
+                what, warn, "non-routable" if warn == 310 else "loopback",
+                "every address of the name is a loopback address: the documented code is 311" if allowed == {311} else "none of its addresses is a loopback address: the documented code is 310"))]
+        if names_host != 1 or tcp:
+            return [("violation", "%s: policy refusal %d without the host name header or with traffic (tcp=%d)" % (what, warn, tcp))]
+    return judge_session(case, " ".join(rest), model, spec, ctx)
+
+
 def judge(case, impl, model, spec, ctx):
+    if case.meta.get("silent"):
+        return judge_silent(case, impl, model, ctx)
+    if case.meta.get("hosts"):
+        return judge_hosts(case, impl, model, spec, ctx)
+    return judge_session(case, impl, model, spec, ctx)
+
+
+def judge_session(case, impl, model, spec, ctx):
     if impl == "999":
         return [("violation", "the session harness panicked")]
     answers = [untok(t) for t in impl.split()]
